@@ -153,6 +153,8 @@ def run(an: Analysis, rep):
     rep.run(r026, an, rep)
     from .common import SharedRules
     from . import c10
+    from . import c13
+    rep.run(c13.block_rules, an, SharedRules(rep, "R02.B", "jump targets are rewritten to the index of the block that starts at the target offset (shared with C13's R13.*): 'every jump designates the block that begins at the instruction CPython would jump to'"))
     rep.run(c10.format_rules, an, SharedRules(rep, "R02.L", "line-table format constants (shared with C10's R10.*): the line shown for an instruction is read through them"))
     rep.stats.update(an.stats(interps))
     rep.assumptions += ["compiler output never jumps into the middle of an EXTENDED_ARG sequence (CPython's assembler targets the first unit)"]
